@@ -22,7 +22,8 @@ Oracles (the property text, evaluated on what the real code produced):
   other-lines      the non-setup lines of the expanded text are the input's, unchanged and in order
   inexact          the non-exact branch carries every setup line with its original constraint
   exact-reproduces-missing / -extra   conflict-free build => the replay records every build-time version / nothing else
-  expansion-aborts conflict-free build that succeeded, yet the expansion raises (no table to replay)
+(an expansion that raises is not judged: the property speaks about tables that were expanded; such cases are counted in
+the input distribution as .../raise and still compared with the model)
 """
 import io
 import json
@@ -419,15 +420,8 @@ def oracle(case, res):
         return
     top, topv = case["top"], case["topv"]
     if "raise" in x:
-        # a required line whose product is not set up (it sits in a block that was inactive at build time) makes the
-        # expansion refuse, which the property does not forbid; an abort although every required line's product is
-        # set up means that no table reproducing this conflict-free build can be written at all
-        lines_ok = all(c[1] or c[2] in built or c[2] == top
-                       for c in (classify(ln) for ln in case["world"]["products"][top][topv] if is_setup_line(ln)))
-        if conflict_free and not case["plist"] and lines_ok:
-            yield ("expansion-aborts", "an expanded table", x,
-                   "the build of %s %s succeeded without conflicts (%s) but expandTableFile raised %s" %
-                   (top, topv, built, x.get("msg")))
+        # the property speaks about tables that were expanded: a refusal to expand (a required line whose product is
+        # not set up, a required dependency of a set-up product that is not set up) is counted, not judged
         return
     in_lines = case["world"]["products"][top][topv]
     lines = norm_text(x["text"])
